@@ -73,6 +73,9 @@ class UpdateHandler(MessageHandler):
 
         Stores all NLRIs in the incoming RIB cache.
         """
+        if getattr(message, 'IS_EOR', False) is True:
+            # an End-of-RIB marker is an UPDATE by its type but carries no route (and has no parsed data)
+            return
         update = cast(Update, message)
         parsed = update.data  # Already parsed by unpack_message
         self._number += 1
@@ -110,6 +113,9 @@ class UpdateHandler(MessageHandler):
 
         Same logic as sync - no async I/O needed for inbound processing.
         """
+        if getattr(message, 'IS_EOR', False) is True:
+            # an End-of-RIB marker is an UPDATE by its type but carries no route (and has no parsed data)
+            return
         update = cast(Update, message)
         parsed = update.data  # Already parsed by unpack_message
         self._number += 1
